@@ -353,9 +353,15 @@ fn mem_operand_address(opr: &bad64::Operand) -> Result<(il::Expression, MemOpera
         | bad64::Operand::SysReg(_)
         | bad64::Operand::ImplSpec { .. }
         | bad64::Operand::Cond(_)
-        | bad64::Operand::Label(_)
         | bad64::Operand::Name(_)
-        | bad64::Operand::StrImm { .. } => unreachable!("Memory operand is expected here"),
+        | bad64::Operand::StrImm { .. } => return Err(unsupported()),
+
+        // PC-relative literal (`ldr x0, label`): bad64 has already resolved the
+        // label to an absolute address.
+        bad64::Operand::Label(imm) => (
+            il::expr_const(imm_to_u64(imm), 64),
+            MemOperandSideeffect::None,
+        ),
     };
 
     Ok((address_expr, sideeffect))
